@@ -79,6 +79,7 @@ def _un(x):
 
 class Tensor(SArr):
     device = CPU
+    _is_torch_tensor = True
 
     def __array_finalize__(self, obj):
         pass
